@@ -33,6 +33,42 @@ Theorem C39_leaders_valid : forall trim sp topics m,
 Proof. exact leaders_valid. Qed.
 Print Assumptions C39_leaders_valid.
 
+
+(* (2') the same for what the operator PUBLISHES: PublishMetadataSnapshot merges the
+        rendered metadata with the stored snapshot (topics only the snapshot knows are
+        kept; a partition list a broker has grown is kept).  For every sequence of
+        publishes with admissible specs (replicas scaled up or down, topics added or
+        removed) interleaved with broker-side CreatePartitions / CreateTopic /
+        DeleteTopic / error-marked entries, starting from an empty etcd, the stored
+        snapshot always has dense partitions and only leader / replica / ISR ids of
+        listed brokers; right after a publish the brokers are exactly the spec's
+        replicas.  Holds with fixes/C39-merge-reassign-missing-brokers.patch. *)
+Theorem C39_published_valid : forall trim es,
+  Forall pevent_admissible es -> meta_ok (prun trim true meta0 es).
+Proof. exact published_valid. Qed.
+Print Assumptions C39_published_valid.
+
+Theorem C39_published_brokers : forall trim es sp topics,
+  Forall pevent_admissible es -> admissible sp -> topics_admissible topics ->
+  let m := prun trim true meta0 (es ++ [PPublish sp topics]) in
+  meta_ok m /\ broker_ids m = seqZ (sts_replicas (sts_of trim sp)).
+Proof. exact published_brokers. Qed.
+Print Assumptions C39_published_brokers.
+
+(* the merge before the fix: 3 replicas, topic x (3 partitions) published; a broker
+   grows x to 6; scale to 2; publish -> 2 brokers listed, partition 2 still led by
+   broker 2.  The fixed merge keeps the 6 partitions and names listed brokers only. *)
+Theorem C39_published_unfixed_refuted :
+  let id := fun b : bytes => b in
+  let x := [120] in
+  let sp3 := mkSpec [100] [110] (Some 3) [] None [] in
+  let sp2 := mkSpec [100] [110] (Some 2) [] None [] in
+  let es := [PPublish sp3 [mkTopic x 3]; PGrow x 6; PPublish sp2 [mkTopic x 3]] in
+  meta_okb (prun id false meta0 es) = false /\ broker_ids (prun id false meta0 es) = [0; 1] /\
+  meta_okb (prun id true meta0 es) = true /\
+  map (fun t => zlen (mt_parts t)) (m_topics (prun id true meta0 es)) = [6].
+Proof. exact merge_orig_refuted. Qed.
+
 (* (3) topics are rendered one-to-one in order and each topic's partitions are
        numbered 0..n-1 with no gaps (n = spec.partitions); no panic for admissible
        topic specs. *)
